@@ -68,6 +68,10 @@ def wall_bounded(chk, w, val, scalars=('double', 'long double'), eqs=('rho', 'rh
         ranges = {'x': (Fraction(1, 2), Fraction(3, 2)), 'y': (Fraction(1, 100), Fraction(1, 20)), 'M_inf': (Fraction(1, 2), Fraction(1)), 'r_T': (Fraction(1, 2), Fraction(9, 10)),
                   'Gamma': (Fraction(6, 5), Fraction(8, 5)), 'alpha': (Fraction(1, 10), Fraction(1, 2)), 'kappa': (Fraction(2, 5), Fraction(1, 2)), 'mu': (Fraction(1, 1000), Fraction(1, 500)),
                   'C_cf': (Fraction(1, 50), Fraction(1, 20))}
+        # sampling ranges (fingerprints, replays, point search) of the other parameters: around the registered default values
+        for n_, d_ in v.defaults.items():
+            if n_ not in ranges and d_ > 0:
+                ranges[n_] = (Fraction(d_) / 2, Fraction(d_) * 3 / 2)
         A = [tm.cmp('gt', X, tm.ZERO), tm.cmp('gt', Y, tm.ZERO), tm.cmp('gt', f['rho'], tm.ZERO), tm.cmp('gt', f['nu'], tm.ZERO), tm.cmp('gt', P['mu'], tm.ZERO), tm.cmp('gt', P['R'], tm.ZERO),
              tm.cmp('gt', P['Gamma'], tm.ONE), tm.cmp('gt', P['Pr'], tm.ZERO), tm.cmp('gt', P['Pr_t'], tm.ZERO), tm.cmp('gt', P['sigma'], tm.ZERO), tm.cmp('gt', P['c_v1'], tm.ZERO),
              tm.cmp('gt', P['kappa'], tm.ZERO), tm.cmp('gt', P['T_inf'], tm.ZERO), tm.cmp('gt', P['M_inf'], tm.ZERO), tm.cmp('gt', P['p_0'], tm.ZERO), tm.cmp('gt', P['r_T'], tm.ZERO),
@@ -75,7 +79,8 @@ def wall_bounded(chk, w, val, scalars=('double', 'long double'), eqs=('rho', 'rh
         tag = 'fans_sa_steady_wall_bounded<%s>' % scalar
         chk.identity('%s:T=p/(rho R)' % tag, Texact, f['p'] / (f['rho'] * P['R']), A, key='fans_wall:eval_exact_t', family='fans-wall-exact',
                      replay=pde.make_replay(chk, v, 'eval_exact_t', [X, Y], Texact, f['p'] / (f['rho'] * P['R']), ranges))
-        res = operators.fans_sa(f, [X, Y], P, t=None, wall_distance=Y)
+        # the temperature field of the operator is the library's own exact T, whose equality with p/(rho R) is the obligation just above
+        res = operators.fans_sa(dict(f, T=Texact), [X, Y], P, t=None, wall_distance=Y)
         for eq in eqs:
             meth = 'eval_q_' + eq
             lib = v.term(meth, [X, Y])
